@@ -31,6 +31,7 @@ func scenarios(tier string) []sched.Scenario {
 	specs := []oxc.ScenarioSpec{
 		{Name: "failed-become-leader", Fault: "failed-become-leader", Clients: 0, PerCli: 0, SyncData: true},
 		{Name: "lost-newterm-response", Fault: "lost-newterm-response", Clients: 2, PerCli: 2, SyncData: true, Reads: true, SameKeys: true},
+		{Name: "steady-connection-drop", Fault: "none", Clients: 2, PerCli: 2, SyncData: true, Reads: true, SameKeys: true, Breaks: 1},
 		{Name: "rolling-isolation", Fault: "rolling-isolation", Clients: 0, PerCli: 0, SyncData: true},
 		{Name: "leader-crash", Fault: "leader-crash", Clients: 2, PerCli: 2, SyncData: true, Reads: true, SameKeys: true},
 		{Name: "spurious-failover", Fault: "spurious-failover", Clients: 2, PerCli: 2, SyncData: true, Reads: true, SameKeys: true},
